@@ -666,6 +666,7 @@ func c60GenICMP(c *vx.Ctx, yield func(c60Case) bool) {
 
 type c60Hdr struct {
 	TOS, TotalLen, ID, Flags, FragOff, TTL, Proto, Cksum, Src, Dst, Opt int
+	OptPat int `json:"OptPat,omitempty"` // 0: octet i = 0x80+i, 1: octet i = 0x7f-i
 }
 
 var (
@@ -674,20 +675,63 @@ var (
 	c60Frag  = []int{0, 1, 0x1fff}
 	c60Flags = []int{0, int(ipv4.MoreFragments), int(ipv4.DontFragment), int(ipv4.MoreFragments | ipv4.DontFragment), 4}
 	c60Addrs = []net.IP{net.IPv4(0, 0, 0, 0), net.IPv4(1, 2, 3, 4), net.IPv4(255, 255, 255, 255).To4()}
-	c60Opts  = []int{0, 4, 40}
+	c60Opts  = []int{0, 4, 8, 40}
 )
 
-func c60CheckHdr(w *vx.W, x c60Hdr) {
+// c60MkHdr builds the header a case describes (fresh slices every call).
+func c60MkHdr(x c60Hdr) *ipv4.Header {
 	var opts []byte
 	if n := c60Opts[x.Opt]; n > 0 {
 		opts = make([]byte, n)
 		for i := range opts {
-			opts[i] = byte(0x80 + i)
+			if x.OptPat == 0 {
+				opts[i] = byte(0x80 + i)
+			} else {
+				opts[i] = byte(0x7f - i)
+			}
 		}
 	}
-	h := &ipv4.Header{Version: ipv4.Version, Len: ipv4.HeaderLen + len(opts), TOS: c60B8[x.TOS], TotalLen: c60B16[x.TotalLen], ID: c60B16[x.ID],
+	return &ipv4.Header{Version: ipv4.Version, Len: ipv4.HeaderLen + len(opts), TOS: c60B8[x.TOS], TotalLen: c60B16[x.TotalLen], ID: c60B16[x.ID],
 		Flags: ipv4.HeaderFlags(c60Flags[x.Flags]), FragOff: c60Frag[x.FragOff], TTL: c60B8[x.TTL], Protocol: c60B8[x.Proto], Checksum: c60B16[x.Cksum],
-		Src: c60Addrs[x.Src], Dst: c60Addrs[x.Dst], Options: opts}
+		Src: append(net.IP(nil), c60Addrs[x.Src]...), Dst: append(net.IP(nil), c60Addrs[x.Dst]...), Options: opts}
+}
+
+// c60HdrDiff names the first field in which the parsed header g differs from
+// the header h that was marshalled ("" when every field came back).
+func c60HdrDiff(g, h *ipv4.Header) string {
+	switch {
+	case g.Version != h.Version:
+		return "version"
+	case g.Len != h.Len:
+		return "len"
+	case g.TOS != h.TOS:
+		return "tos"
+	case g.TotalLen != h.TotalLen:
+		return "totallen"
+	case g.ID != h.ID:
+		return "id"
+	case g.Flags != h.Flags:
+		return "flags"
+	case g.FragOff != h.FragOff:
+		return "fragoff"
+	case g.TTL != h.TTL:
+		return "ttl"
+	case g.Protocol != h.Protocol:
+		return "protocol"
+	case g.Checksum != h.Checksum:
+		return "checksum"
+	case !g.Src.Equal(h.Src):
+		return "src"
+	case !g.Dst.Equal(h.Dst):
+		return "dst"
+	case !bytes.Equal(g.Options, h.Options):
+		return "options"
+	}
+	return ""
+}
+
+func c60CheckHdr(w *vx.W, x c60Hdr) {
+	h := c60MkHdr(x)
 	b, err := h.Marshal()
 	if err != nil {
 		w.Failf("C60/ipv4hdr/marshal-error", "%+v: %v", x, err)
@@ -702,41 +746,134 @@ func c60CheckHdr(w *vx.W, x c60Hdr) {
 		w.Failf("C60/ipv4hdr/parse-error", "%+v: %v", x, err)
 		return
 	}
-	diff := ""
-	switch {
-	case g.Version != h.Version:
-		diff = "version"
-	case g.Len != h.Len:
-		diff = "len"
-	case g.TOS != h.TOS:
-		diff = "tos"
-	case g.TotalLen != h.TotalLen:
-		diff = "totallen"
-	case g.ID != h.ID:
-		diff = "id"
-	case g.Flags != h.Flags:
-		diff = "flags"
-	case g.FragOff != h.FragOff:
-		diff = "fragoff"
-	case g.TTL != h.TTL:
-		diff = "ttl"
-	case g.Protocol != h.Protocol:
-		diff = "protocol"
-	case g.Checksum != h.Checksum:
-		diff = "checksum"
-	case !g.Src.Equal(h.Src):
-		diff = "src"
-	case !g.Dst.Equal(h.Dst):
-		diff = "dst"
-	case !bytes.Equal(g.Options, h.Options):
-		diff = "options"
-	}
-	if diff != "" {
+	if diff := c60HdrDiff(g, h); diff != "" {
 		w.Failf("C60/ipv4hdr/roundtrip/"+diff, "%+v: parsed %v (options %x), want %v (options %x)", x, g, g.Options, h, h.Options)
 		return
 	}
 	w.Nontrivial()
-	w.Outcome(fmt.Sprintf("ipv4hdr/opt=%d", len(opts)))
+	w.Outcome(fmt.Sprintf("ipv4hdr/opt=%d", len(h.Options)))
+}
+
+// ---- ipv4.Header: Parse into a receiver that already holds something
+//
+// (*Header).Parse "stores the result in h"; a receive loop keeps one Header and
+// parses every datagram into it. What h held before must not show through.
+
+type c60Reuse struct {
+	Pre int      `json:"receiver_before"` // 0 zero Header, 1 Options with length 0 and capacity 40, 2 Options holding 40 octets of 0x55
+	Seq []c60Hdr `json:"headers"`         // marshalled and parsed into the one receiver in this order; the last one is compared
+}
+
+// c60ReuseHdrs is the header alphabet of the reuse family: three field
+// profiles (every field at its low / middle / high boundary value, so that any
+// two profiles differ in every field) x options length {0,4,8,40} x two
+// option contents.
+func c60ReuseHdrs() []c60Hdr {
+	var out []c60Hdr
+	flags := []int{0, 1, 3} // none, MF, MF|DF
+	for p := 0; p < 3; p++ {
+		for o := range c60Opts {
+			for pat := 0; pat < 2; pat++ {
+				if c60Opts[o] == 0 && pat != 0 {
+					continue
+				}
+				out = append(out, c60Hdr{TOS: p, TotalLen: p, ID: p, Flags: flags[p], FragOff: p, TTL: p, Proto: p, Cksum: p, Src: p, Dst: (p + 1) % 3, Opt: o, OptPat: pat})
+			}
+		}
+	}
+	return out
+}
+
+func c60GenReuse(maxLen int, yield func(c60Reuse) bool) {
+	hs := c60ReuseHdrs()
+	for n := 1; n <= maxLen; n++ { // shortest histories first
+		idx := make([]int, n)
+		for {
+			for pre := 0; pre < 3; pre++ {
+				if n == 1 && pre == 0 {
+					continue // a single Parse into a zero Header is part "ipv4hdr"
+				}
+				x := c60Reuse{Pre: pre, Seq: make([]c60Hdr, n)}
+				for i, j := range idx {
+					x.Seq[i] = hs[j]
+				}
+				if !yield(x) {
+					return
+				}
+			}
+			i := n - 1
+			for ; i >= 0; i-- {
+				if idx[i]++; idx[i] < len(hs) {
+					break
+				}
+				idx[i] = 0
+			}
+			if i < 0 {
+				break
+			}
+		}
+	}
+}
+
+func c60CheckReuse(w *vx.W, x c60Reuse) {
+	var recv ipv4.Header
+	held := 0 // the longest options area the receiver has held so far
+	switch x.Pre {
+	case 1:
+		recv.Options = make([]byte, 0, 40)
+	case 2:
+		recv.Options = bytes.Repeat([]byte{0x55}, 40)
+		recv.Len = ipv4.HeaderLen + 40
+		held = 40
+	}
+	for i, hx := range x.Seq {
+		h := c60MkHdr(hx)
+		b, err := h.Marshal()
+		if err != nil {
+			w.Failf("C60/ipv4hdr/marshal-error", "%+v: %v", x, err)
+			return
+		}
+		wire := append(append([]byte(nil), b...), 0xee, 0xee)
+		if err := recv.Parse(wire); err != nil {
+			w.Failf("C60/ipv4hdr/reused-receiver/parse-error", "%+v: Parse #%d: %v", x, i, err)
+			return
+		}
+		m := len(h.Options)
+		if i < len(x.Seq)-1 {
+			if m > held {
+				held = m
+			}
+			continue
+		}
+		// the last header: the receiver must now be exactly this header
+		rel := "same-length-as-held-before"
+		switch {
+		case held == 0 && m == 0:
+			rel = "none-after-none"
+		case m == 0:
+			rel = "none-after-some"
+		case m < held:
+			rel = "shorter-after-longer"
+		case m > held:
+			rel = "longer-after-shorter"
+		}
+		if diff := c60HdrDiff(&recv, h); diff != "" {
+			sig := "C60/ipv4hdr/reused-receiver/" + diff
+			if diff == "options" || diff == "len" {
+				sig += "/" + rel
+			}
+			w.Failf(sig, "%+v: after parsing %d header(s) into one Header (longest options held before the last: %d octets) the receiver is %v (Len %d, options %x), want the last header %v (Len %d, options %x)",
+				x, len(x.Seq), held, &recv, recv.Len, recv.Options, h, h.Len, h.Options)
+			return
+		}
+		again, err := recv.Marshal()
+		if err != nil || !bytes.Equal(again, b) {
+			w.Failf("C60/ipv4hdr/reused-receiver/remarshal/"+rel, "%+v: re-marshalling the receiver gives %x (err %v), the parsed header was %x", x, again, err, b)
+			return
+		}
+		w.Nontrivial()
+		w.Outcome(fmt.Sprintf("ipv4hdr-reuse/n=%d/%s", len(x.Seq), rel))
+	}
 }
 
 // ---- control messages
@@ -804,17 +941,160 @@ func c60CheckCtl(w *vx.W, x c60Ctl) {
 	w.Outcome(fmt.Sprintf("ctl4/len=%d", len(b)))
 }
 
+// ---- control messages: Parse into a receiver that already holds a parsed message
+
+type c60CtlReuse struct {
+	Seq []c60Ctl `json:"messages"` // all of one family; marshalled and parsed into the one receiver in this order
+}
+
+// c60CtlAlphabet lists the control messages of one family whose Marshal is
+// not empty (an empty control message gives Parse nothing to decode).
+func c60CtlAlphabet(v6 bool) []c60Ctl {
+	var out []c60Ctl
+	for tc := 0; tc < 3; tc++ {
+		for hop := 0; hop < 3; hop++ {
+			if !v6 && (tc != 0 || hop != 0) {
+				continue
+			}
+			for ifi := 0; ifi < 3; ifi++ {
+				for a := 0; a < 2; a++ {
+					if tc == 0 && hop == 0 && ifi == 0 && a == 0 {
+						continue
+					}
+					out = append(out, c60Ctl{v6, tc, hop, ifi, a})
+				}
+			}
+		}
+	}
+	return out
+}
+
+func c60GenCtlReuse(maxLen int, yield func(c60CtlReuse) bool) {
+	for n := 2; n <= maxLen; n++ {
+		for _, v6 := range []bool{false, true} {
+			al := c60CtlAlphabet(v6)
+			idx := make([]int, n)
+			for {
+				x := c60CtlReuse{Seq: make([]c60Ctl, n)}
+				for i, j := range idx {
+					x.Seq[i] = al[j]
+				}
+				if !yield(x) {
+					return
+				}
+				i := n - 1
+				for ; i >= 0; i-- {
+					if idx[i]++; idx[i] < len(al) {
+						break
+					}
+					idx[i] = 0
+				}
+				if i < 0 {
+					break
+				}
+			}
+		}
+	}
+}
+
+func c60CheckCtlReuse(w *vx.W, x c60CtlReuse) {
+	last := x.Seq[len(x.Seq)-1]
+	pktinfo := last.Addr == 1 || c60CtlIf[last.If] > 0 // the last message carries a packet-info object
+	if last.V6 {
+		var g ipv6.ControlMessage
+		for i, y := range x.Seq {
+			cm := &ipv6.ControlMessage{TrafficClass: c60CtlInts[y.TC], HopLimit: c60CtlInts[y.Hop], IfIndex: c60CtlIf[y.If]}
+			if y.Addr == 1 {
+				cm.Src = c60V6IP()
+			}
+			b := cm.Marshal()
+			if len(b) == 0 {
+				w.Failf("C60/ctl6/empty-marshal", "%+v: Marshal #%d returned nothing", x, i)
+				return
+			}
+			if err := g.Parse(b); err != nil {
+				w.Failf("C60/ctl6/reused-receiver/parse-error", "%+v: Parse #%d: %v", x, i, err)
+				return
+			}
+		}
+		diff := ""
+		wantDst := net.IPv6unspecified
+		if last.Addr == 1 {
+			wantDst = c60V6IP()
+		}
+		switch {
+		case c60CtlInts[last.TC] > 0 && g.TrafficClass != c60CtlInts[last.TC]:
+			diff = "traffic-class"
+		case c60CtlInts[last.Hop] > 0 && g.HopLimit != c60CtlInts[last.Hop]:
+			diff = "hop-limit"
+		case pktinfo && g.IfIndex != c60CtlIf[last.If]:
+			diff = "ifindex"
+		case pktinfo && !g.Dst.Equal(wantDst):
+			diff = "packet-info-address"
+		}
+		if diff != "" {
+			w.Failf("C60/ctl6/reused-receiver/"+diff, "%+v: after parsing %d messages into one ControlMessage the receiver is %v; the last message carried tclass=%d hoplim=%d ifindex=%d address=%v (fields with value 0 / without packet info are not on the wire)",
+				x, len(x.Seq), &g, c60CtlInts[last.TC], c60CtlInts[last.Hop], c60CtlIf[last.If], wantDst)
+			return
+		}
+		w.Nontrivial()
+		w.Outcome(fmt.Sprintf("ctl6-reuse/n=%d/pktinfo=%v", len(x.Seq), pktinfo))
+		return
+	}
+	var g ipv4.ControlMessage
+	for i, y := range x.Seq {
+		cm := &ipv4.ControlMessage{IfIndex: c60CtlIf[y.If]}
+		if y.Addr == 1 {
+			cm.Src = net.IPv4(192, 0, 2, 1)
+		}
+		b := cm.Marshal()
+		if len(b) == 0 {
+			w.Failf("C60/ctl4/empty-marshal", "%+v: Marshal #%d returned nothing", x, i)
+			return
+		}
+		if err := g.Parse(b); err != nil {
+			w.Failf("C60/ctl4/reused-receiver/parse-error", "%+v: Parse #%d: %v", x, i, err)
+			return
+		}
+	}
+	if g.IfIndex != c60CtlIf[last.If] || g.TTL != 0 || g.Src != nil {
+		w.Failf("C60/ctl4/reused-receiver/ifindex", "%+v: after parsing %d messages into one ControlMessage the receiver is %v; the last message carried ifindex=%d", x, len(x.Seq), &g, c60CtlIf[last.If])
+		return
+	}
+	w.Nontrivial()
+	w.Outcome(fmt.Sprintf("ctl4-reuse/n=%d", len(x.Seq)))
+}
+
 func TestVerif_C60(t *testing.T) {
 	vx.Run(t, "C60", func(c *vx.Ctx) {
+		reuseLen := vx.Pick(c, 3, 4)    // headers parsed into one ipv4.Header
+		ctlReuseLen := vx.Pick(c, 2, 3) // control messages parsed into one ControlMessage
 		c.Rule("icmp: every message of {echo, echo reply, extended echo request (interface ident by name/index/address, one or two objects, raw object), extended echo reply (all flag subsets, state 0/1/7), destination unreachable, time exceeded, parameter problem, packet too big (v6), raw body of an unlisted type} x {ICMPv4, ICMPv6 without and with pseudo header} x code {0,1,255} x 16-bit fields {0,1,0xffff} / 8-bit {0,1,255} / 32-bit {0,1,255,1280,2^32-1} x data length {0,1,4,127,128,129,576} (thorough: 25 lengths up to the 1020-octet maximum the ICMPv4 length attribute can express) x data pattern {i*7+1, 0x00, 0xff} x extension combination {none, MPLS 1/2/3 labels, interface info with each of the 10 expressible attribute subsets, names of 1..63 bytes, pairs in both orders, two interface infos, raw object alone and mixed}; non-trivial = marshalled, wire-checked, parsed and compared equal")
-		c.Rule("ipv4hdr: the product of TOS/TTL/Protocol {0,1,255}, TotalLen/ID/Checksum {0,1,0xffff}, Flags {0,MF,DF,MF|DF,reserved}, FragOff {0,1,0x1fff}, Src/Dst {0.0.0.0,1.2.3.4,255.255.255.255}, options length {0,4,40}; Marshal then ParseHeader (with payload bytes following) must give back every field")
+		c.Rule("ipv4hdr: the product of TOS/TTL/Protocol {0,1,255}, TotalLen/ID/Checksum {0,1,0xffff}, Flags {0,MF,DF,MF|DF,reserved}, FragOff {0,1,0x1fff}, Src/Dst {0.0.0.0,1.2.3.4,255.255.255.255}, options length {0,4,8,40}; Marshal then ParseHeader (with payload bytes following) must give back every field")
+		c.Rule(fmt.Sprintf("ipv4hdr-reuse (history dependence of (*Header).Parse): every sequence of 1..%d headers over the 21-header alphabet {three field profiles: all fields at their low / middle / high boundary value} x options length {0,4,8,40} x two option contents, each marshalled and parsed in order into ONE Header whose state before the first Parse is {zero value, Options of length 0 and capacity 40, Options holding 40 octets}; after the last Parse the receiver must equal the last header field by field (so len(Options) = Len-20) and re-marshal to the bytes that were parsed; non-trivial = it did. Failures on options are classified by the last options length against the longest options area the receiver held before (none-after-some, shorter-after-longer, same, longer-after-shorter)", reuseLen))
+		c.Rule(fmt.Sprintf("ctl-reuse: every sequence of 2..%d control messages of one family with a non-empty encoding (53 for ipv6, 5 for ipv4, i.e. every subset of the wire objects traffic class / hop limit / packet info) marshalled and parsed in order into ONE ControlMessage; every field the last message carries on the wire must hold the last message's value", ctlReuseLen))
 		c.Rule("ctl: ipv6.ControlMessage TrafficClass/HopLimit {0,1,255} x IfIndex {0,1,2^31-1} x Src {unset,set} and ipv4.ControlMessage IfIndex x Src: Marshal then Parse")
 		c.Assume("inputs are canonical: extension Class/Type fields equal the values the marshaller writes (InterfaceInfo.Type = the attribute bits of the populated fields, name/MTU only together with an interface index, address family matching the protocol, IPv6 zone = interface name when a name is present), interface names <= 63 bytes without NUL, MPLS label/TC within 20/3 bits, 8/16-bit fields within range, original datagram <= 1020 octets")
 		c.Assume("error messages without extensions whose original datagram is >= 136 octets and whose octet 128 has the high nibble 2 are excluded: RFC 4884 §5.5 backward-compatibility parsing (and the package) deliberately treats such a message as carrying an extension structure at offset 128")
 		c.Assume("ICMPv6 parameter problem is exercised without extensions (the marshaller writes none); Message.Checksum of the input is ignored by Marshal and the parsed value is the wire checksum")
+		c.Assume("reused receivers: for control messages a field whose object is absent from the last parsed message (traffic class / hop limit 0, no packet info) keeps whatever the receiver held, which the statement does not settle, so such fields are not compared; ipv4.Header has no absent fields (a header without options has Options of length 0). The icmp package has no exported decode-into-receiver API (ParseMessage and ParseIPv4Header return fresh values), so there is no reuse family for ICMP bodies")
 		c.Assume("control messages are direction-asymmetric by design (Src is for sending, Dst/TTL/MTU for receiving); only the fields with a single wire slot that Parse reads are compared: ipv6 TrafficClass, HopLimit, IfIndex and the packet-info address (given as Src, read back as Dst); ipv4 IfIndex. ipv4/ipv6 private codec tables (per-OS ctlOpts, NextHop, PathMTU, TTL marshal) are not reachable through the public API from package icmp and are not covered. GOOS=" + runtime.GOOS)
 
 		vx.Enumerate(c, "icmp", vx.Opts{}, func(yield func(c60Case) bool) { c60GenICMP(c, yield) }, c60CheckICMP)
+
+		vx.Enumerate(c, "ipv4hdr-reuse", vx.Opts{}, func(yield func(c60Reuse) bool) {
+			if runtime.GOOS != "linux" {
+				return
+			}
+			c60GenReuse(reuseLen, yield)
+		}, c60CheckReuse)
+
+		vx.Enumerate(c, "ctl-reuse", vx.Opts{}, func(yield func(c60CtlReuse) bool) {
+			if runtime.GOOS != "linux" {
+				return
+			}
+			c60GenCtlReuse(ctlReuseLen, yield)
+		}, c60CheckCtlReuse)
 
 		vx.Enumerate(c, "ipv4hdr", vx.Opts{NoSample: true}, func(yield func(c60Hdr) bool) {
 			if runtime.GOOS != "linux" {
@@ -831,7 +1111,7 @@ func TestVerif_C60(t *testing.T) {
 										for x.Cksum = 0; x.Cksum < 3; x.Cksum++ {
 											for x.Src = 0; x.Src < 3; x.Src++ {
 												for x.Dst = 0; x.Dst < 3; x.Dst++ {
-													for x.Opt = 0; x.Opt < 3; x.Opt++ {
+													for x.Opt = 0; x.Opt < len(c60Opts); x.Opt++ {
 														if !yield(x) {
 															return
 														}
